@@ -176,6 +176,18 @@ def replay(harness, cases_path, results_path, nworkers=NCPU, limit="5s", extra_a
                 rest = share[len(got):]
                 if rest:
                     pending.append((i, rest, 0))
+            elif p.returncode != 0 and len(got) < len(share) and b"harness:" not in err[:200]:
+                # the process died inside the engine (fatal runtime error: stack overflow, concurrent map
+                # writes, out of memory ...): the case it was working on is a failing case; go on with the rest
+                crashed = json.loads(share[len(got)])
+                msg = err.decode(errors="replace")
+                head = "\n".join(msg.splitlines()[:6])
+                results.append(dict(prop=crashed.get("prop"), key=crashed.get("key"), tags=crashed.get("tags"), **{"pass": False},
+                                    runs=len(crashed.get("runs") or []), src="(process died)",
+                                    fails=[dict(run="", why="crash", got=head[:600], want="", src="")]))
+                rest = share[len(got) + 1:]
+                if rest:
+                    pending.append((i, rest, 0))
             elif p.returncode != 0:
                 raise Broken("harness replay worker died rc=%s: %s" % (p.returncode, err.decode(errors="replace")[-2000:]))
             elif len(got) != len(share):
